@@ -25,10 +25,12 @@ type (
 )
 
 // NewCond is sync.NewCond.
+//
 //go:norace
 func NewCond(l Locker) *Cond { return sync.NewCond(l) }
 
 // OnceFunc is sync.OnceFunc.
+//
 //go:norace
 func OnceFunc(f func()) func() { return sync.OnceFunc(f) }
 
@@ -61,6 +63,7 @@ type Mutex struct {
 }
 
 // Lock locks m.
+//
 //go:norace
 func (m *Mutex) Lock() {
 	t := simrt.Current()
@@ -81,6 +84,7 @@ func (m *Mutex) Lock() {
 }
 
 // TryLock tries to lock m.
+//
 //go:norace
 func (m *Mutex) TryLock() bool {
 	t := simrt.Current()
@@ -97,6 +101,7 @@ func (m *Mutex) TryLock() bool {
 }
 
 // Unlock unlocks m.
+//
 //go:norace
 func (m *Mutex) Unlock() {
 	t := simrt.Current()
@@ -121,6 +126,7 @@ type RWMutex struct {
 }
 
 // Lock locks rw for writing.
+//
 //go:norace
 func (rw *RWMutex) Lock() {
 	t := simrt.Current()
@@ -143,6 +149,7 @@ func (rw *RWMutex) Lock() {
 }
 
 // Unlock unlocks rw for writing.
+//
 //go:norace
 func (rw *RWMutex) Unlock() {
 	t := simrt.Current()
@@ -162,6 +169,7 @@ func (rw *RWMutex) Unlock() {
 }
 
 // RLock locks rw for reading.
+//
 //go:norace
 func (rw *RWMutex) RLock() {
 	t := simrt.Current()
@@ -183,6 +191,7 @@ func (rw *RWMutex) RLock() {
 }
 
 // RUnlock undoes a single RLock.
+//
 //go:norace
 func (rw *RWMutex) RUnlock() {
 	t := simrt.Current()
@@ -203,13 +212,15 @@ func (rw *RWMutex) RUnlock() {
 }
 
 // RLocker returns a Locker for the read side.
+//
 //go:norace
 func (rw *RWMutex) RLocker() Locker { return (*rlocker)(rw) }
 
 type rlocker RWMutex
 
 //go:norace
-func (r *rlocker) Lock()   { (*RWMutex)(r).RLock() }
+func (r *rlocker) Lock() { (*RWMutex)(r).RLock() }
+
 //go:norace
 func (r *rlocker) Unlock() { (*RWMutex)(r).RUnlock() }
 
@@ -229,6 +240,7 @@ func (wg *WaitGroup) fresh(s *simrt.Sim) {
 }
 
 // Add adds delta to the counter.
+//
 //go:norace
 func (wg *WaitGroup) Add(delta int) {
 	t := simrt.Current()
@@ -254,10 +266,12 @@ func (wg *WaitGroup) Add(delta int) {
 }
 
 // Done decrements the counter.
+//
 //go:norace
 func (wg *WaitGroup) Done() { wg.Add(-1) }
 
 // Go runs f in a new goroutine tracked by the group (Go 1.25 API).
+//
 //go:norace
 func (wg *WaitGroup) Go(f func()) {
 	wg.Add(1)
@@ -268,6 +282,7 @@ func (wg *WaitGroup) Go(f func()) {
 }
 
 // Wait blocks until the counter is zero.
+//
 //go:norace
 func (wg *WaitGroup) Wait() {
 	t := simrt.Current()
@@ -294,6 +309,7 @@ type Once struct {
 }
 
 // Do calls f if and only if Do is being called for the first time.
+//
 //go:norace
 func (o *Once) Do(f func()) {
 	t := simrt.Current()
